@@ -37,6 +37,9 @@ struct Inner {
     st: Vec<Where>,
     grant: Vec<bool>,
     active: bool,
+    /// teardown family: every `exec.remote.*` site of a non-home thread is a scheduling point (also those the
+    /// model does not know, e.g. `exec.remote.done`), so the real code's own site order is what gets explored
+    all_remote_points: bool,
 }
 
 static CTL: OnceLock<(Mutex<Inner>, Condvar)> = OnceLock::new();
@@ -50,6 +53,7 @@ fn ctl() -> &'static (Mutex<Inner>, Condvar) {
                 st: vec![],
                 grant: vec![],
                 active: false,
+                all_remote_points: false,
             }),
             Condvar::new(),
         )
@@ -107,7 +111,7 @@ fn park_forever(mut g: MutexGuard<'static, Inner>) -> ! {
 
 fn sink(site: &'static str, a: u64, b: u64) {
     let me = std::thread::current().id();
-    let (epoch, role) = {
+    let (epoch, role, all_remote) = {
         let g = lock();
         match g.roles.get(&me) {
             None => {
@@ -125,11 +129,11 @@ fn sink(site: &'static str, a: u64, b: u64) {
                     hooks::account(site, a, b, true);
                     return;
                 }
-                (e, r)
+                (e, r, g.all_remote_points)
             }
         }
     };
-    let point = is_point(site);
+    let point = is_point(site) || (all_remote && role != 0 && site.starts_with("exec.remote."));
     let (task, bad) = hooks::account(site, a, b, !point);
     let p = Point {
         site,
@@ -184,6 +188,7 @@ pub fn reset(n: usize) {
     g.st = vec![Where::Idle; n];
     g.grant = vec![false; n];
     g.active = false;
+    g.all_remote_points = false;
     ctl().1.notify_all();
 }
 
@@ -200,6 +205,10 @@ pub fn forget(ids: &[ThreadId]) {
     for i in ids {
         g.roles.remove(i);
     }
+}
+
+pub fn set_all_remote_points(on: bool) {
+    lock().all_remote_points = on;
 }
 
 pub fn set_active(on: bool) {
